@@ -207,9 +207,9 @@ class ClientHarness(object):
       'PluginRegistrar': None, 'time': Clock(ctx).builtin_time(),
       'enableTcpKeepAlive': Builtin('enableTcpKeepAlive', lambda ip, a, k: None),
       'LineOnlyReceiver': ModelClass('LineOnlyReceiver', methods={
-        'sendLine': lambda ip, selfobj, line: self.sent_lines.append(line)}),
+        'sendLine': lambda ip, selfobj, line: (self.sent_lines.append(line), log.add('transport.write', ('line',)))[0]}),
       'Int32StringReceiver': ModelClass('Int32StringReceiver', methods={
-        'sendString': lambda ip, selfobj, s: self.sent_strings.append(s)}),
+        'sendString': lambda ip, selfobj, s: (self.sent_strings.append(s), log.add('transport.write', ('string',)))[0]}),
       'log': Namespace('log', {n: Builtin('log.' + n, lambda ip, a, k: None) for n in ('err', 'clients', 'msg', 'debug')}),
       'pickle': Namespace('pickle', {'dumps': Builtin('dumps', lambda ip, a, k: ('pickle.dumps', a[0], k.get('protocol')))}),
     }}
